@@ -109,7 +109,7 @@ Next ==
             Do([op |-> "mutate", v |-> x, i |-> i, via |-> via])
        \/ "drain" \in Alpha /\ \E r \in RangeArgs(Len0(x)), p \in Paths :
             Do([op |-> "drain_begin", v |-> x, sk |-> r.sk, sv |-> r.sv, ek |-> r.ek, ev |-> r.ev, path |-> p])
-       \/ "splice" \in Alpha /\ \E r \in RangeArgs(Len0(x)), p \in Paths, n \in 0..MaxRepl, src \in Srcs :
+       \/ "splice" \in Alpha /\ \E r \in RangeArgs(Len0(x)), p \in Paths, n \in 0..MaxRepl, src \in Srcs \cap {"wrapper", "raw", "typed"} :
             /\ (p = "typed") = (src = "typed")
             /\ (Cfg.fixed \/ Len0(x) + n <= CapOf(x) + 1)
             /\ \E d \in {0} \cup (IF "liar" \in Alpha /\ r.sk = "inc" /\ r.ek = "exc" THEN {-2, -1, 1, 2} ELSE {}) :
@@ -143,7 +143,7 @@ Next ==
             Len0(x) + k <= st.v[x].cap /\ Len0(x) + k <= CapOf(x) /\ Do([op |-> "spare_write", v |-> x, k |-> k, via |-> via])
        \/ "place" \in Alpha /\ \E k \in 0..15 : Do([op |-> "place", v |-> x, off |-> 8 * k])
        \/ "push_many" \in Alpha /\ Len0(x) = 0 /\ x = "a" /\ Do([op |-> "push_many", v |-> x, n |-> PushManyN])
-       \/ "iter" \in Alpha /\ \E kind \in {"iter", "iter_mut", "titer", "titer_mut"} :
+       \/ "iter" \in Alpha /\ \E kind \in {"iter", "iter_mut", "titer", "titer_mut", "into_ref", "into_mut", "tinto_ref", "tinto_mut"} :
             Do([op |-> "iter_begin", v |-> x, kind |-> kind])
   \/ \E x \in Vecs : st.v[x].h.k = "tmp" /\
        \/ \E sk \in Sinks(x, AllSinks) : Do([op |-> "consume", v |-> x, sink |-> sk])
@@ -167,7 +167,7 @@ Next ==
   \/ \E x \in Vecs : st.v[x].h.k = "range" /\ "lazy" \in Alpha /\ \E k \in 0..(Len(st.v[x].h.out) - 1) : LazyDo(x, "item", k)
   \/ \E x \in Vecs : st.v[x].h.k = "iter" /\
        \/ \E k \in 1..Len(st.v[x].h.its), end \in {"front", "back"} : Do([op |-> "iter_next", v |-> x, k |-> k, end |-> end])
-       \/ \E k \in 1..Len(st.v[x].h.its) : Len(st.v[x].h.its) < MaxIters /\ st.v[x].h.kind \in {"iter", "titer"} /\
+       \/ \E k \in 1..Len(st.v[x].h.its) : Len(st.v[x].h.its) < MaxIters /\ st.v[x].h.kind \in {"iter", "titer", "into_ref", "tinto_ref"} /\
             Do([op |-> "iter_clone", v |-> x, k |-> k])
        \/ Do([op |-> "iter_end", v |-> x])
   \/ "ext_drop" \in Alpha /\ st.ext # <<>> /\ Do([op |-> "ext_drop", v |-> CHOOSE x \in Vecs : TRUE])
